@@ -506,12 +506,85 @@ func regressionHistories() []in {
 	}
 }
 
+// Scripted family: a limited ancestor, a middle group with its own limit, a limited leaf under the middle group and a
+// sibling that uses part of the ancestor - for memory, threads and cpu each, optionally with groups that do not have
+// that limit between ancestor and middle and between middle and leaf - followed by updates of the middle group up to,
+// exactly at and beyond the space the ancestor has left, then of the leaf and the sibling. The interesting accounting
+// is max(own limit, reserved by children) of the group being raised.
+func scriptedFamily() []in {
+	var out []in
+	unit := map[string]uint64{"mem": 1024 * kib, "thr": 1, "cpu": 1}
+	mk := func(kind string, v int) resIn {
+		switch kind {
+		case "mem":
+			return resIn{Mem: u64(uint64(v) * unit["mem"])}
+		case "thr":
+			return resIn{Thr: pint(v)}
+		}
+		return resIn{CPU: &[2]int{v, 10}} // v x 10%
+	}
+	other := func(kind string) resIn { // a limit of another kind, so that the group is unlimited in `kind`
+		if kind == "mem" {
+			return resIn{Thr: pint(1000)}
+		}
+		return resIn{Mem: u64(4096 * 1024 * kib)}
+	}
+	const R = 100
+	for _, kind := range []string{"mem", "thr", "cpu"} {
+		for _, upper := range []bool{false, true} { // unlimited group between ancestor and middle
+			for _, lower := range []bool{false, true} { // unlimited group between middle and leaf
+				for _, M := range []int{30, 50} {
+					for _, L := range []int{20, M} {
+						for _, S := range []int{40, 50, R - M} {
+							h := in{NCPU: 8}
+							add := func(k string, path []int, res resIn) {
+								h.Reqs = append(h.Reqs, reqIn{Kind: k, Path: path, Res: res})
+							}
+							add("new", nil, mk(kind, R))
+							mid := []int{0, 0}
+							if upper {
+								add("sub", []int{0}, other(kind))
+								add("sub", []int{0, 0}, mk(kind, M))
+								mid = []int{0, 0, 0}
+							} else {
+								add("sub", []int{0}, mk(kind, M))
+							}
+							// the driver caps paths at depth 3: with both intermediates the leaf hangs directly under the lower one
+							leafParent := mid
+							if lower && !upper {
+								add("sub", mid, other(kind))
+								leafParent = append(append([]int{}, mid...), 0)
+							}
+							add("sub", leafParent, mk(kind, L))
+							// sibling of the middle group (a second child of the ancestor)
+							add("sub", []int{0}, mk(kind, S))
+							free := R - S
+							for _, v := range []int{M + 1, free - 1, free, free + 1, free + L, R, free} {
+								if v > 0 {
+									add("upd", mid, mk(kind, v))
+								}
+							}
+							add("upd", []int{0, 1}, mk(kind, S+1))
+							add("upd", []int{0}, mk(kind, R+10))
+							add("upd", mid, mk(kind, free+10))
+							add("upd", mid, mk(kind, free+11))
+							out = append(out, h)
+						}
+					}
+				}
+			}
+		}
+	}
+	return out
+}
+
 func gen(r *vh.Rand, tier string, n int) []in {
 	if n == 0 {
 		n = 400
 	}
 	ins := []in{findingHistory()}
 	ins = append(ins, regressionHistories()...)
+	ins = append(ins, scriptedFamily()...)
 	// hand-written histories around the boundaries of each validator
 	mib := func(v uint64) *uint64 { return u64(v * 1024 * kib) }
 	ins = append(ins,
